@@ -20,16 +20,19 @@ def qLoop (bs : Nat) (adj : Int) : Int → List Char → Nat → Int × Nat
     else if c = ' ' then qLoop bs adj (offset + 1) rest (n + 1)
     else (offset, n)
 
+/-- the optional blank after `>`: (characters skipped after '>', initial, adjustTab, spaceAfterMarker) -/
+def quoteHead (bs : Nat) (sc : Int) (after : List Char) : Nat × Int × Int × Bool :=
+  match after with
+  | ' ' :: _ => (1, sc + 2, 0, true)
+  | '\t' :: _ => if ((bs : Int) + (sc + 1)) % 4 = 3 then (1, sc + 2, 0, true) else (0, sc + 1, 1, true)
+  | _ => (0, sc + 1, 0, false)
+
 /-- what the rule makes of a line whose first non-blank character is `>`: the line as the nested loop sees it
     (text from the new `bMarks`, `tShift`, `sCount`, `bsCount`), and `lastLineEmpty` -/
 def quoteStrip (l : BLine) : BLine × Bool :=
   let after := l.body.drop 1
   let sc : Int := l.sCount
-  let r : Nat × Int × Int × Bool :=          -- (characters skipped after '>', initial, adjustTab, spaceAfterMarker)
-    match after with
-    | ' ' :: _ => (1, sc + 2, 0, true)
-    | '\t' :: _ => if ((l.bs : Int) + (sc + 1)) % 4 = 3 then (1, sc + 2, 0, true) else (0, sc + 1, 1, true)
-    | _ => (0, sc + 1, 0, false)
+  let r := quoteHead l.bs sc after
   let text' := after.drop r.1
   let q := qLoop l.bs r.2.2.1 r.2.1 text' 0
   let bs' : Int := (l.bs : Int) + sc + 1 + (if r.2.2.2 then 1 else 0)
